@@ -56,6 +56,7 @@ func init() {
 		"zzTypeName":     zzTypeName,
 		"zzOpaqueInit":   zzOpaqueInit,
 		"zzJSON":         zzJSON,
+		"zzParamInt":     zzParamInt,
 	}
 }
 
@@ -637,4 +638,17 @@ func (s *State) hostToValue(v interface{}) Value {
 	}
 	s.abort("hostToValue %T", v)
 	return nil
+}
+
+func zzParamInt(s *State, a []Value) Value {
+	name := s.strArg(a[0])
+	v, ok := s.W.Job.Params[name]
+	if !ok {
+		s.abort("missing job parameter %q", name)
+	}
+	n, err := strconv.Atoi(v)
+	if err != nil {
+		s.abort("job parameter %q is not an integer", name)
+	}
+	return int64(n)
 }
